@@ -105,9 +105,15 @@ def closeCall (r : TryRes) (l : Life) : Life × Bool :=
   if l.closed then (l, false)
   else ((finishClose r { l with closed := true }).1, (finishClose r { l with closed := true }).2.isSome)
 
-/-- EOFError (or what `close()` raised in its place) travels up through every wait loop of this side -/
+/-- the innermost wait loop gets `res` (EOFError, or what `close()` raised in its place); an enclosing wait loop
+is reached through the handler in between, whose response can no longer be sent: EOFError -/
+def releaseAll (res : Res) : List Nat → List (Nat × Res)
+  | [] => []
+  | s :: rest => (s, res) :: rest.map (fun t => (t, Res.eof))
+
+/-- the end travels up through every wait loop of this side -/
 def resolveBlocked (res : Res) (l : Life) : Life :=
-  { l with outcomes := l.outcomes ++ l.blocked.map (fun s => (s, res)),
+  { l with outcomes := l.outcomes ++ releaseAll res l.blocked,
            pending := l.pending.filter (fun s => !l.blocked.contains s),
            blocked := [] }
 
